@@ -115,6 +115,24 @@ int main(void) {
       vh_connect_pre(scr, &conns[id], is889[id] ? "RFB 003.889\n" : "RFB 003.008\n", 12);
       if (conns[id].cl && atoi(tok[2])) conns[id].cl->reverseConnection = TRUE; /* as rfbReverseConnection does */
       puts("ok");
+    } else if (!strcmp(tok[0], "badconn") && n == 3) {
+      /* a connection attempt that fails inside rfbNewClient(): kind 0 = first bytes that are neither
+         "RFB " nor a WebSocket "GET " (refused by the connection-type detection), kind 1 = the peer
+         hangs up at once.  No record may remain, and nobody else may be affected. */
+      int id = atoi(tok[1]), kind = atoi(tok[2]);
+      if (id < 0 || id >= MAXC || used[id] || kind < 0 || kind > 1) { puts("bad-op"); continue; }
+      used[id] = 1;
+      if (kind == 0) vh_connect_pre(scr, &conns[id], "HEAD / HTTP/1.0\r\n\r\n", 19);
+      else {
+        int sv[2];
+        memset(&conns[id], 0, sizeof conns[id]);
+        if (socketpair(AF_UNIX, SOCK_STREAM, 0, sv) < 0) { perror("socketpair"); return 2; }
+        close(sv[1]);
+        conns[id].peer = -1; conns[id].srvfd = sv[0];
+        conns[id].cl = rfbNewClient(scr, sv[0]);
+        if (conns[id].cl) { conns[id].cl->clientData = &conns[id]; conns[id].cl->clientGoneHook = vh_gone_hook; }
+      }
+      puts(conns[id].cl ? "accepted" : "refused");
     } else if (!strcmp(tok[0], "rconn") && n == 3) {
       /* the REAL rfbReverseConnection.  mode 1: a viewer listens; 0: nobody listens (connection
          refused); 2: the connection is made but the application's newClientHook refuses it */
